@@ -22,6 +22,7 @@ def run(ck):
             hists['m%d' % len(hists)] = h
     incr.check_histories(ck, d, hists, 'm', ('C18',))
     incr.flush(ck)
+    vf.sh(['rm', '-rf', d])
 
 
 def replay(ck, path):
